@@ -9,6 +9,7 @@ import Driver.DryCmd
 import Driver.TopCmd
 import Driver.CatalogCmd
 import Driver.ExprCmd
+import Driver.EngineCrashCmd
 /-! `driver`: one request per line on stdin, one answer per line on stdout. -/
 namespace Driver
 
@@ -21,6 +22,7 @@ structure St where
   collect : CollectSt := {}
   catalog : CatalogSt := {}
   expr : ExprSt := {}
+  crash : CrashSt := {}
 
 def step (st : St) (line : String) : St × String :=
   let (cmd, args) := parseLine line
@@ -54,6 +56,9 @@ def step (st : St) (line : String) : St × String :=
   else if cmd.startsWith "expr." then
     let (s, out) := exprHandle st.expr cmd args
     ({ st with expr := s }, out)
+  else if cmd.startsWith "crash." then
+    let (e, c, out) := crashHandle st.engine st.crash cmd args
+    ({ st with engine := e, crash := c }, out)
   else if cmd == "ping" then (st, "pong")
   else (st, "bad-op")
 
